@@ -37,7 +37,10 @@ func fileExists(name string) (bool, error) {
 }
 
 func createSegment(name string, opt Options) (err error) {
-	f, err := os.OpenFile(name, os.O_RDWR|os.O_CREATE, opt.FileMode)
+	// the file gets its final name only when it is complete: a crash in between
+	// must not leave an empty segment file, which could not be opened again
+	tmp := name + ".tmp"
+	f, err := os.OpenFile(tmp, os.O_RDWR|os.O_CREATE, opt.FileMode)
 	if err != nil {
 		return
 	}
@@ -45,8 +48,11 @@ func createSegment(name string, opt Options) (err error) {
 		if e := f.Close(); err == nil {
 			err = e
 		}
+		if err == nil {
+			err = os.Rename(tmp, name)
+		}
 		if err != nil {
-			if e := os.Remove(name); err == nil {
+			if e := os.Remove(tmp); err == nil {
 				err = e
 			}
 		}
